@@ -83,7 +83,7 @@ func c05ParkedCallback(w *fw.Worker, i int, r *fw.Rand) {
 		return
 	}
 	defer e.Stop()
-	e.CBGate = make(chan struct{})
+	e.SetCBGate(make(chan struct{}))
 	defer close(e.CBGate)
 	ctx := e.S.Ctx
 	mon := newSerialMon()
